@@ -42,8 +42,8 @@ def run(tier, rep):
     quick = tier == "quick"
     rep.assumptions += ["TLC 1.8"]
     bundle = de.real_bundle()
-    fe.mc(rep, "bytes", 7 if quick else 10, maxpay=1, optset="OptAll", bundle=bundle, liveness=False)
-    fe.mc(rep, "items", 2 if quick else 3, maxpay=1, damage=True, optset="OptAll", bundle=bundle, liveness=False)
+    fe.mc(rep, "bytes", 7 if quick else 16, maxpay=1, optset="OptAll", bundle=bundle, liveness=False)
+    fe.mc(rep, "items", 2 if quick else 5, maxpay=1, damage=True, optset="OptAll", bundle=bundle, liveness=False)
     rnd = rng("c17")
     pool = stream_corpus.payload_pool(bundle, "c17", 80)
     from .. import msm_corpus
@@ -63,7 +63,7 @@ def run(tier, rep):
     corp = de.Corpus(rep, bundle)
     combos = [(v, p, q) for v in (0, 1) for p in (True, False) for q in (0, 1, 2)]
     groups = []
-    for s in range(4 if quick else 40):
+    for s in range(4 if quick else 60):
         items = []
         for _ in range(rnd.randint(4, 10)):
             r = rnd.random()
